@@ -239,6 +239,85 @@ func firstDiffLine(a, b string) string {
 	return fmt.Sprintf("length %d vs %d", len(la), len(lb))
 }
 
+// c09Base: baseSpec with the places the fixed catalogue does not reach: external docs on schemas and properties, anonymous
+// (inline) schemas in responses and bodies with documented properties, a documented items schema of a parameter
+func c09Base() []byte {
+	var doc map[string]interface{}
+	_ = json.Unmarshal([]byte(baseSpec), &doc)
+	ed := func(tag string) map[string]interface{} {
+		return map[string]interface{}{"description": "neutral " + tag + " docs", "url": "http://example.com/" + tag}
+	}
+	defs := doc["definitions"].(map[string]interface{})
+	pet := defs["Pet"].(map[string]interface{})
+	pet["externalDocs"] = ed("pet")
+	pet["properties"].(map[string]interface{})["name"].(map[string]interface{})["externalDocs"] = ed("petname")
+	defs["Alias"].(map[string]interface{})["externalDocs"] = ed("alias")
+	defs["Error"].(map[string]interface{})["title"] = "neutral error title"
+	inline := func(tag string) map[string]interface{} {
+		return map[string]interface{}{"type": "object", "title": "neutral " + tag + " title", "description": "neutral " + tag + " description", "externalDocs": ed(tag),
+			"example": map[string]interface{}{"a": "neutral " + tag + " example"},
+			"properties": map[string]interface{}{
+				"a": map[string]interface{}{"type": "string", "title": "neutral " + tag + " a title", "description": "neutral " + tag + " a description", "externalDocs": ed(tag + "a"), "default": "neutral" + tag + "default"},
+				"deep": map[string]interface{}{"type": "object", "description": "neutral " + tag + " deep description", "properties": map[string]interface{}{
+					"b": map[string]interface{}{"type": "array", "description": "neutral " + tag + " b description", "items": map[string]interface{}{"type": "string", "description": "neutral " + tag + " b items", "enum": []interface{}{"neutralx", "neutraly"}}}}}}}
+	}
+	doc["paths"].(map[string]interface{})["/inline"] = map[string]interface{}{
+		"get": map[string]interface{}{"operationId": "getInline", "summary": "neutral inline summary",
+			"responses": map[string]interface{}{
+				"200":     map[string]interface{}{"description": "neutral inline ok", "schema": inline("okbody")},
+				"default": map[string]interface{}{"description": "neutral inline default", "schema": inline("defaultbody")}}},
+		"put": map[string]interface{}{"operationId": "putInline", "summary": "neutral inline put",
+			"parameters": []interface{}{map[string]interface{}{"name": "body", "in": "body", "description": "neutral inline body param", "schema": inline("reqbody")}},
+			"responses":  map[string]interface{}{"204": map[string]interface{}{"description": "neutral inline done"}}}}
+	b, _ := json.Marshal(doc)
+	return b
+}
+
+var freeTextKeys = map[string]bool{"title": true, "description": true, "summary": true, "termsOfService": true, "default": true, "example": true, "pattern": true}
+
+// allPositions: the catalogue, then every string leaf under a free-text key (and the members of externalDocs / example objects)
+func allPositions(spec []byte, catalogue []position) []position {
+	var doc interface{}
+	_ = json.Unmarshal(spec, &doc)
+	out := append([]position{}, catalogue...)
+	seen := map[string]bool{}
+	for _, p := range catalogue {
+		seen[strings.Join(p.path, "\x00")] = true
+	}
+	var walk func(v interface{}, path []string, free bool)
+	walk = func(v interface{}, path []string, free bool) {
+		switch x := v.(type) {
+		case map[string]interface{}:
+			keys := make([]string, 0, len(x))
+			for k := range x {
+				keys = append(keys, k)
+			}
+			sort.Strings(keys)
+			for _, k := range keys {
+				walk(x[k], append(append([]string{}, path...), k), free && false || freeTextKeys[k] || k == "externalDocs" || (free && (len(path) > 0 && (path[len(path)-1] == "example" || path[len(path)-1] == "externalDocs"))))
+			}
+		case []interface{}:
+			for i, e := range x {
+				walk(e, append(append([]string{}, path...), strconv.Itoa(i)), false)
+			}
+		case string:
+			if free && !seen[strings.Join(path, "\x00")] {
+				seen[strings.Join(path, "\x00")] = true
+				name := strings.Join(path, ".")
+				if strings.Contains(name, "url") || strings.Contains(name, "email") {
+					// URL-typed members are validated by the loader: only external docs URLs of schemas are of interest, and they are free text for it
+					if !strings.HasSuffix(name, "externalDocs.url") {
+						return
+					}
+				}
+				out = append(out, position{name: "auto:" + name, path: append([]string{}, path...)})
+			}
+		}
+	}
+	walk(doc, nil, false)
+	return out
+}
+
 func cmdInject(args []string) {
 	fs := flag.NewFlagSet("inject", flag.ExitOnError)
 	bin := fs.String("bin", "", "swagger binary built from /repo")
@@ -256,6 +335,9 @@ func cmdInject(args []string) {
 	if *tier == "thorough" {
 		hs = append(hs, hostilesMore...)
 	}
+	// the catalogue positions, plus every free-text leaf of the document extended with inline schemas and external docs
+	baseSpec := string(c09Base())
+	positions := allPositions([]byte(baseSpec), positions)
 	neutral := render(*bin, filepath.Join(*work, "neutral"), []byte(baseSpec), nil, nil)
 	// marker probe: which targets render which position at all
 	var mdoc interface{}
